@@ -1,6 +1,6 @@
 (* Property C08 — removing a wallet erases it completely and leaves every other wallet intact.
    Only statements here; proofs are in Ledger/RemoveProofs.v (the removal steps) and
-   Ledger/RemoveProofs2.v … RemoveProofs8.v (histories: C08_survivors_correct_after,
+   Ledger/RemoveProofs2.v … RemoveProofs9.v (histories: C08_survivors_correct_after,
    C08_survivors_correct_quiescent, C08_removed_stays_removed at the end of this file).
    Model: Ledger/Import.v (multi-wallet layer: status, keystore table, block records, Rollback driven
    by the block records) and Ledger/Remove.v (RemoveWallet, asyncRemove phase 1 / phase 2 rounds,
@@ -11,7 +11,7 @@ Import ListNotations.
 Open Scope Z_scope.
 Require Import MW.Ledger.Model MW.Ledger.Spec MW.Ledger.Run MW.Ledger.WF MW.Ledger.Import MW.Ledger.Remove.
 Require Import MW.Ledger.Proofs5 MW.Ledger.RemoveProofs.
-Require Import MW.Ledger.RemoveProofs6 MW.Ledger.RemoveProofs7 MW.Ledger.RemoveProofs8.
+Require Import MW.Ledger.RemoveProofs6 MW.Ledger.RemoveProofs7 MW.Ledger.RemoveProofs8 MW.Ledger.RemoveProofs9.
 
 (* ------------------------------------------------------------------ witnesses (code as found) *)
 
@@ -168,40 +168,48 @@ Print Assumptions C08_refused_while_importing.
 
 (* ------------------------------------------------------------------ histories (repaired code) *)
 
-(* The surviving wallets stay CORRECT after the removal, whatever the chain does afterwards — with one
-   environment assumption that turned out to be necessary: a block the node has disconnected is never
-   connected again.
+(* The surviving wallets stay CORRECT after the removal, whatever the chain does afterwards.
 
-   Why.  The repaired removableTxForRemoveWallet keeps a transaction that spends a coin of another
-   managed wallet; it finds the coin's owner by looking the previous transaction up on the node's
-   CURRENT best chain (FetchTxBySha).  A removal round that runs while the node has reorganised away
-   from the block that created a survivor's coin (announcement still queued) does not find that
-   transaction, takes the spender for removable and drops its tx record.  That is harmless if the
-   handler then follows the node (the coin's block is rolled back anyway), but if the node
-   reorganises BACK onto the coin's block before the handler has processed anything, the later
-   Rollback of the spender's block no longer un-spends the survivor's coin.
+   The first repair of removableTxForRemoveWallet ([f_removable]) kept a transaction that spends a coin of
+   another managed wallet, but found the coin's owner by looking the previous transaction up on the
+   node's CURRENT best chain (FetchTxBySha).  A removal round that ran while the node had reorganised
+   away from the block that created a survivor's coin (announcement still queued) did not find that
+   transaction, took the spender for removable and dropped its tx record.  That is harmless if the
+   handler then follows the node (the coin's block is rolled back anyway), but if the node reorganises
+   BACK onto the coin's block before the handler has processed anything, the later Rollback of the
+   spender's block no longer un-spends the survivor's coin.  With that code the theorems below needed
+   the environment assumption "a block the node has disconnected is never connected again"
+   ([wf_xhistory]; they are kept as C08_…_no_reattach).  The second repair ([f_removable_debit]: the
+   owner is read from the credit row the store itself holds for the spent output) makes a removal
+   round independent of the node's chain, and the assumption is gone ([wf_xhistory2]).
 
-   Witness (repaired code): block 1 pays wallet 1; block 2's transaction 3 spends that coin and pays
-   only wallet 2; wallet 2's removal starts; the node disconnects blocks 2 and 1 and connects 1'; a
-   removal round runs (the last one); the node disconnects 1', connects block 1 AGAIN and 2'' on top
-   of it; the handler then processes the queued announcements 1' (refused: not on the node any more),
-   1 (rolls block 2 back) and 2''.  It is on the node's tip, the node's chain is well formed after
-   every event, and wallet 1 reports 0 while the chain pays it 500 unspent.  The history meets every
-   clause of [wf_xhistory] except that block 1 is connected twice (its 16th event). *)
+   Witness (the code before the second repair): block 1 pays wallet 1; block 2's transaction 3 spends
+   that coin and pays only wallet 2; wallet 2's removal starts; the node disconnects blocks 2 and 1 and
+   connects 1'; a removal round runs (the last one); the node disconnects 1', connects block 1 AGAIN and
+   2'' on top of it; the handler then processes the queued announcements 1' (refused: not on the node
+   any more), 1 (rolls block 2 back) and 2''.  It is on the node's tip, the node's chain is well formed
+   after every event, and wallet 1 reports 0 while the chain pays it 500 unspent.  The history meets
+   every clause of [wf_xhistory] except that block 1 is connected twice (its 16th event); it is a
+   [wf_xhistory2] history. *)
+Definition before_debit_repair : fixes :=
+  {| f_removable := true; f_rollback := true; f_import_retry := true; f_start_reorg := true; f_rollback_order := true;
+     f_import_tipcheck := true; f_removable_debit := false; f_ff_check := true |}.
 Definition r1 := {| b_id := 1; b_prev := 0; b_height := 1; b_txs := [cb 1 [pay 1 500]] |}.
 Definition r2 := {| b_id := 2; b_prev := 1; b_height := 2;
                     b_txs := [cb 2 []; {| t_id := 3; t_cb := false; t_ins := [(1, 0)%N]; t_outs := [pay 2 500] |}] |}.
 Definition r1' := {| b_id := 11; b_prev := 0; b_height := 1; b_txs := [cb 11 []] |}.
 Definition r2'' := {| b_id := 22; b_prev := 1; b_height := 2; b_txs := [cb 22 []] |}.
-Definition hist_reattach : list xevent :=
+Definition hist_reattach_pre : list xevent :=
   setup ++ [XAttach r1; XProcess r1; XAttach r2; XProcess r2; XRemoveReq 2 22; XPhase1 2;
             XDetach; XDetach; XAttach r1'; XRound 2;
-            XDetach; XAttach r1; XAttach r2''; XProcess r1'; XProcess r1; XProcess r2''].
+            XDetach; XAttach r1; XAttach r2''; XProcess r1'; XProcess r1].
+Definition hist_reattach : list xevent := hist_reattach_pre ++ [XProcess r2''].
 
 Theorem C08_survivors_after_reattach_refuted :
-  let s := xrun repaired p0 1000 20000 [g0] hist_reattach in
-  forallb (fun s' => wf_chain_b (xs_node s')) (xsims repaired p0 1000 20000 (xinit_sim [g0]) hist_reattach) = true /\
+  let s := xrun before_debit_repair p0 1000 20000 [g0] hist_reattach in
+  forallb (fun s' => wf_chain_b (xs_node s')) (xsims before_debit_repair p0 1000 20000 (xinit_sim [g0]) hist_reattach) = true /\
   xfresh_b g0 [] [] (firstn 15 hist_reattach) = true /\ nth_error hist_reattach 15 = Some (XAttach r1) /\
+  wf_xhistory2_b before_debit_repair p0 1000 20000 g0 hist_reattach = true /\
   xs_crashed s = false /\ snd (tip (x_w (xs_st s))) = b_id (last (xs_node s) g0) /\
   listed (xs_st s) 2 = false /\ status_of (xs_st s) 1 = Some WReady /\
   r_total (xreport (xs_st s) 1) = 0 /\
@@ -209,46 +217,58 @@ Theorem C08_survivors_after_reattach_refuted :
 Proof. vm_compute. repeat split; reflexivity. Qed.
 Print Assumptions C08_survivors_after_reattach_refuted.
 
-(* [wf_xhistory fx p B cap g h] (Ledger/RemoveProofs6.v), environment assumptions only:
+(* the same history on the repaired code: the hypotheses of C08_survivors_correct_after hold (it is not a
+   [wf_xhistory] history: block 1 comes back), and so does its conclusion *)
+Example C08_reattach_repaired_on_witness :
+  wf_xhistory2 repaired p0 1000 20000 g0 (hist_reattach_pre ++ [XProcess r2'']) /\
+  wf_xhistory_b repaired p0 1000 20000 g0 hist_reattach = false /\
+  last (xs_node (xrun repaired p0 1000 20000 [g0] hist_reattach_pre)) g0 = r2'' /\
+  let s := xrun repaired p0 1000 20000 [g0] hist_reattach in
+  status_of (xs_st s) 1 = Some WReady /\ r_total (xreport (xs_st s) 1) = 500 /\
+  xreport (xs_st s) 1 = spec_report p0 (key_owner (xs_st s)) (xs_node s) 1.
+Proof. split; [apply wf_xhistory2_b_sound|]; vm_compute; repeat split; reflexivity. Qed.
+
+(* [wf_xhistory2 fx p B cap g h] (Ledger/RemoveProofs9.v), environment assumptions only:
    - the node's best chain is well formed (C01's [wf_chain]) after every event;
-   - a block is connected at most once, no block's id is the genesis' previous-hash field, a transaction
-     id names one transaction among all blocks ever connected;
+   - a block the node connects is new (its id is not the id of another block nor the genesis' previous-hash
+     field, a transaction id names one transaction among all blocks ever connected) or a block the node
+     has connected before and disconnected since — blocks may come back any number of times;
    - a script hash is issued once, and before any connected block pays it (C01's assumption);
    - only blocks that have been connected are announced; no keystore import runs (C07's subject).
    Everything else is free: any number of wallets created at any time, any number of removals
    requested at any time (also several at once), every removal step (phase 1, each phase 2 round, ANY
    cap) scheduled anywhere between node events and announcements — in particular while the node has
-   reorganised and the handler has not been told yet —, announcements skipped, stale, repeated or
-   refused, reorganisations of any depth (through blocks in which the removed wallet shared
-   transactions with survivors, spent their coins or was paid by them), restarts at any point
-   (volatile state lost, start-up catch-up).
+   reorganised, away from a block or back onto it, and the handler has not been told yet —,
+   announcements skipped, stale, repeated or refused, reorganisations of any depth (through blocks in
+   which the removed wallet shared transactions with survivors, spent their coins or was paid by them),
+   restarts at any point (volatile state lost, start-up catch-up).
 
    C08_survivors_correct_after: on the repaired code, after any such history, processing the
    announcement of the node's tip succeeds (the handler has not died, it is on the node's tip) and EVERY
    ready wallet's report — synced height, total, spendable / withdrawable sums, the list of unspent
    rows — is exactly what the node's best chain pays to its addresses and has not spent. *)
 Theorem C08_survivors_correct_after : forall fx p B cap g h b,
-  f_removable fx = true -> f_rollback fx = true -> f_rollback_order fx = true ->
-  wf_xhistory fx p B cap g (h ++ [XProcess b]) ->
+  f_removable fx = true -> f_rollback fx = true -> f_rollback_order fx = true -> f_removable_debit fx = true ->
+  wf_xhistory2 fx p B cap g (h ++ [XProcess b]) ->
   last (xs_node (xrun fx p B cap [g] h)) g = b ->
   let s := xrun fx p B cap [g] (h ++ [XProcess b]) in
   xs_crashed s = false /\ snd (tip (x_w (xs_st s))) = b_id b /\
   forall v, status_of (xs_st s) v = Some WReady ->
     xreport (xs_st s) v = spec_report p (key_owner (xs_st s)) (xs_node s) v.
-Proof. exact survivors_correct_after. Qed.
+Proof. exact survivors_correct_after2. Qed.
 Print Assumptions C08_survivors_correct_after.
 
 (* the same at EVERY quiescent point: after any well-formed history the handler is alive, and whenever
    its tip is the node's tip every ready wallet's report is the chain specification *)
 Theorem C08_survivors_correct_quiescent : forall fx p B cap g h,
-  f_removable fx = true -> f_rollback fx = true -> f_rollback_order fx = true ->
-  wf_xhistory fx p B cap g h ->
+  f_removable fx = true -> f_rollback fx = true -> f_rollback_order fx = true -> f_removable_debit fx = true ->
+  wf_xhistory2 fx p B cap g h ->
   let s := xrun fx p B cap [g] h in
   xs_crashed s = false /\
   (snd (tip (x_w (xs_st s))) = b_id (last (xs_node s) g) ->
    forall v, status_of (xs_st s) v = Some WReady ->
      xreport (xs_st s) v = spec_report p (key_owner (xs_st s)) (xs_node s) v).
-Proof. exact survivors_correct_quiescent. Qed.
+Proof. exact survivors_correct_quiescent2. Qed.
 Print Assumptions C08_survivors_correct_quiescent.
 
 (* C08_removed_stays_removed: when the round that finishes the removal of w has run (w was listed
@@ -259,6 +279,45 @@ Print Assumptions C08_survivors_correct_quiescent.
    ([not_recreating w shs e]: e is not CreateWallet w / NewAddress of w or of one of [shs] / an import
    of w or of one of [shs] / a rescan batch). *)
 Theorem C08_removed_stays_removed : forall fx p B cap g h1 w h2,
+  f_removable fx = true -> f_rollback fx = true -> f_rollback_order fx = true -> f_removable_debit fx = true ->
+  wf_xhistory2 fx p B cap g (h1 ++ [XRound w]) ->
+  let s1 := xrun fx p B cap [g] h1 in
+  let shs := sh_of_wallet (xs_st s1) w in
+  listed (xs_st s1) w = true ->
+  listed (xs_st (xrun fx p B cap [g] (h1 ++ [XRound w]))) w = false ->
+  (forall e, In e h2 -> not_recreating w shs e) ->
+  let s := xrun fx p B cap [g] (h1 ++ XRound w :: h2) in
+  mentions (xs_st s) w shs = false /\ listed (xs_st s) w = false.
+Proof. exact removed_stays_removed2. Qed.
+Print Assumptions C08_removed_stays_removed.
+
+(* The statements as they stood before the second repair, for ANY value of [f_removable_debit] — in
+   particular for the code before it: correct as long as no disconnected block is connected again
+   ([wf_xhistory]: every connected block is new).  For the repaired code they are special cases of the
+   three theorems above ([C08_wf_xhistory_weaker]). *)
+Theorem C08_survivors_correct_after_no_reattach : forall fx p B cap g h b,
+  f_removable fx = true -> f_rollback fx = true -> f_rollback_order fx = true ->
+  wf_xhistory fx p B cap g (h ++ [XProcess b]) ->
+  last (xs_node (xrun fx p B cap [g] h)) g = b ->
+  let s := xrun fx p B cap [g] (h ++ [XProcess b]) in
+  xs_crashed s = false /\ snd (tip (x_w (xs_st s))) = b_id b /\
+  forall v, status_of (xs_st s) v = Some WReady ->
+    xreport (xs_st s) v = spec_report p (key_owner (xs_st s)) (xs_node s) v.
+Proof. exact survivors_correct_after. Qed.
+Print Assumptions C08_survivors_correct_after_no_reattach.
+
+Theorem C08_survivors_correct_quiescent_no_reattach : forall fx p B cap g h,
+  f_removable fx = true -> f_rollback fx = true -> f_rollback_order fx = true ->
+  wf_xhistory fx p B cap g h ->
+  let s := xrun fx p B cap [g] h in
+  xs_crashed s = false /\
+  (snd (tip (x_w (xs_st s))) = b_id (last (xs_node s) g) ->
+   forall v, status_of (xs_st s) v = Some WReady ->
+     xreport (xs_st s) v = spec_report p (key_owner (xs_st s)) (xs_node s) v).
+Proof. exact survivors_correct_quiescent. Qed.
+Print Assumptions C08_survivors_correct_quiescent_no_reattach.
+
+Theorem C08_removed_stays_removed_no_reattach : forall fx p B cap g h1 w h2,
   f_removable fx = true -> f_rollback fx = true -> f_rollback_order fx = true ->
   wf_xhistory fx p B cap g (h1 ++ [XRound w]) ->
   let s1 := xrun fx p B cap [g] h1 in
@@ -269,7 +328,15 @@ Theorem C08_removed_stays_removed : forall fx p B cap g h1 w h2,
   let s := xrun fx p B cap [g] (h1 ++ XRound w :: h2) in
   mentions (xs_st s) w shs = false /\ listed (xs_st s) w = false.
 Proof. exact removed_stays_removed. Qed.
-Print Assumptions C08_removed_stays_removed.
+Print Assumptions C08_removed_stays_removed_no_reattach.
+
+Theorem C08_wf_xhistory_weaker : forall fx p B cap g h, wf_xhistory fx p B cap g h -> wf_xhistory2 fx p B cap g h.
+Proof. exact wf_xhistory_wf_xhistory2. Qed.
+Print Assumptions C08_wf_xhistory_weaker.
+
+Theorem C08_wf_xhistory2_check : forall fx p B cap g h, wf_xhistory2_b fx p B cap g h = true -> wf_xhistory2 fx p B cap g h.
+Proof. exact wf_xhistory2_b_sound. Qed.
+Print Assumptions C08_wf_xhistory2_check.
 
 Theorem C08_wf_xhistory_check : forall fx p B cap g h, wf_xhistory_b fx p B cap g h = true -> wf_xhistory fx p B cap g h.
 Proof. exact wf_xhistory_b_sound. Qed.
@@ -307,9 +374,9 @@ Definition hist_later : list xevent :=
 Definition hist_all : list xevent := hist_pre ++ XRound 2 :: hist_later.
 
 Example C08_history_wf :
-  wf_xhistory repaired p0 1000 1 g0 (hist_all ++ [XProcess c123]) /\
+  wf_xhistory2 repaired p0 1000 1 g0 (hist_all ++ [XProcess c123]) /\
   last (xs_node (xrun repaired p0 1000 1 [g0] hist_all)) g0 = c123.
-Proof. split; [apply wf_xhistory_b_sound|]; vm_compute; reflexivity. Qed.
+Proof. split; [apply wf_xhistory_wf_xhistory2; apply wf_xhistory_b_sound|]; vm_compute; reflexivity. Qed.
 
 (* what happened on the way: wallet 2's credits go one per round (6 credits in the store, 5, 4), the
    2-deep reorganisation through the shared transaction happens while wallet 2 is still listed, the
@@ -333,12 +400,12 @@ Proof. vm_compute. repeat split; reflexivity. Qed.
 (* the hypotheses of C08_removed_stays_removed hold for wallet 2 with h1 = hist_pre, h2 = hist_later
    ([not_recreating_all_b_sound] turns the boolean check into the hypothesis), and so does its conclusion *)
 Example C08_history_removed_hyps :
-  wf_xhistory repaired p0 1000 1 g0 (hist_pre ++ [XRound 2]) /\
+  wf_xhistory2 repaired p0 1000 1 g0 (hist_pre ++ [XRound 2]) /\
   sh_of_wallet (xs_st (xrun repaired p0 1000 1 [g0] hist_pre)) 2 = [2%N] /\
   listed (xs_st (xrun repaired p0 1000 1 [g0] hist_pre)) 2 = true /\
   listed (xs_st (xrun repaired p0 1000 1 [g0] (hist_pre ++ [XRound 2]))) 2 = false /\
   forallb (not_recreating_b 2 [2%N]) hist_later = true.
-Proof. split; [apply wf_xhistory_b_sound|]; vm_compute; repeat split; reflexivity. Qed.
+Proof. split; [apply wf_xhistory2_b_sound|]; vm_compute; repeat split; reflexivity. Qed.
 
 Example C08_history_removed :
   let s := xrun repaired p0 1000 1 [g0] hist_all in
